@@ -341,6 +341,25 @@ Rows were filled in each entry's own key order under columns named after
 another entry's order, so [{p:1,q:2},{q:3,p:4}] exported p=3, q=4 for the
 second ID."""),
 
+ ("collapse-empty-axis", [
+  (T, """            data = self._conv_to_self_type(collapsed_data, transpose=transpose)
+
+        # if the table is empty""", """            n_off = len(self.ids(axis=self._invert_axis(axis)))
+            if collapsed_data and n_off:
+                data = self._conv_to_self_type(collapsed_data,
+                                               transpose=transpose)
+            else:
+                # nothing to aggregate (an empty axis, or no partition left):
+                # keep the matrix shape in line with the IDs
+                data = csr_matrix(axis_update(n_off, len(collapsed_ids)))
+
+        # if the table is empty"""),
+ ], """fix: collapse of a table with an empty axis returned an incoherent table
+
+With no samples (or no observations) left, e.g. after a filter removed
+everything on one axis, collapse() built a 0x0 matrix but still attached the
+collapsed / retained IDs, so shape disagreed with the number of IDs."""),
+
  ("dup-test", [
   (E, """    return t.shape[0] != len(set(t.ids(axis='observation')))""",
    """    ids = t.ids(axis='observation')
